@@ -629,3 +629,142 @@ fn extend_lpm<'a, P: Prefix, L, R>(
         UnionIndex::FirstR(_, r) | UnionIndex::OnlyR(r) => (x, lpm_l, get_lpm_r(r)),
     })
 }
+
+/// Verification hooks: stack injection / read-back and wrappers around the private helper
+/// functions. Only compiled with feature `verif-hooks`.
+///
+/// Stack entries are encoded as `(kind, l, r)` with kind 0 = Both, 1 = FirstL, 2 = FirstR,
+/// 3 = OnlyL (r unused), 4 = OnlyR (l unused).
+#[cfg(feature = "verif-hooks")]
+#[allow(missing_docs)]
+#[doc(hidden)]
+pub mod __verif {
+    use super::*;
+
+    pub type Enc = (u8, usize, usize);
+    pub type LpmPtr<P, T> = Option<(*const P, *const T)>;
+
+    fn enc(x: &UnionIndex) -> Enc {
+        match x {
+            UnionIndex::Both(l, r) => (0, *l, *r),
+            UnionIndex::FirstL(l, r) => (1, *l, *r),
+            UnionIndex::FirstR(l, r) => (2, *l, *r),
+            UnionIndex::OnlyL(l) => (3, *l, 0),
+            UnionIndex::OnlyR(r) => (4, 0, *r),
+        }
+    }
+    fn dec(x: Enc) -> UnionIndex {
+        match x.0 {
+            0 => UnionIndex::Both(x.1, x.2),
+            1 => UnionIndex::FirstL(x.1, x.2),
+            2 => UnionIndex::FirstR(x.1, x.2),
+            3 => UnionIndex::OnlyL(x.1),
+            _ => UnionIndex::OnlyR(x.2),
+        }
+    }
+    fn lpm_ptr<P, T>(x: &Lpm<'_, P, T>) -> LpmPtr<P, T> {
+        x.map(|(p, t)| (p as *const P, t as *const T))
+    }
+
+    pub fn next_indices<P: Prefix, L, R>(
+        l: &PrefixMap<P, L>,
+        r: &PrefixMap<P, R>,
+        node_l: Option<usize>,
+        node_r: Option<usize>,
+    ) -> Vec<Enc> {
+        super::next_indices(&l.table, &r.table, node_l, node_r)
+            .iter()
+            .map(enc)
+            .collect()
+    }
+    pub fn next_indices_first_l<P: Prefix, L, R>(
+        l: &PrefixMap<P, L>,
+        r: &PrefixMap<P, R>,
+        nl: usize,
+        nr: usize,
+    ) -> Vec<Enc> {
+        let n = &l.table[nl];
+        super::next_indices_first_l(&l.table, &r.table, nl, n.left, n.right, nr)
+            .iter()
+            .map(enc)
+            .collect()
+    }
+    pub fn next_indices_first_r<P: Prefix, L, R>(
+        l: &PrefixMap<P, L>,
+        r: &PrefixMap<P, R>,
+        nl: usize,
+        nr: usize,
+    ) -> Vec<Enc> {
+        let n = &r.table[nr];
+        super::next_indices_first_r(&l.table, &r.table, nl, nr, n.left, n.right)
+            .iter()
+            .map(enc)
+            .collect()
+    }
+
+    impl<'a, P: Prefix, L, R> Union<'a, P, L, R> {
+        /// inject a stack; `lpm_*` are node indices whose `prefix_value()` is used
+        pub fn __verif_from(
+            l: &'a PrefixMap<P, L>,
+            r: &'a PrefixMap<P, R>,
+            stack: &[(Enc, Option<usize>, Option<usize>)],
+            cap: usize,
+        ) -> Self {
+            let mut nodes = Vec::with_capacity(cap.max(stack.len()));
+            for (e, ll, lr) in stack {
+                nodes.push((
+                    dec(*e),
+                    ll.and_then(|i| l.table[i].prefix_value()),
+                    lr.and_then(|i| r.table[i].prefix_value()),
+                ));
+            }
+            Union {
+                table_l: &l.table,
+                table_r: &r.table,
+                nodes,
+            }
+        }
+    }
+    impl<P, L, R> Union<'_, P, L, R> {
+        pub fn __verif_stack_len(&self) -> usize {
+            self.nodes.len()
+        }
+        pub fn __verif_stack_entry(&self, i: usize) -> (Enc, LpmPtr<P, L>, LpmPtr<P, R>) {
+            let (x, a, b) = &self.nodes[i];
+            (enc(x), lpm_ptr(a), lpm_ptr(b))
+        }
+        pub fn __verif_rehome(&mut self, cap: usize) {
+            let mut fresh = Vec::with_capacity(cap.max(self.nodes.len()));
+            let mut tmp = Vec::with_capacity(cap.max(self.nodes.len()));
+            while let Some(x) = self.nodes.pop() {
+                tmp.push(x);
+            }
+            while let Some(x) = tmp.pop() {
+                fresh.push(x);
+            }
+            self.nodes = fresh;
+        }
+    }
+    impl<'a, P: Prefix, L, R> UnionMut<'a, P, L, R> {
+        pub fn __verif_from(
+            l: &'a mut PrefixMap<P, L>,
+            r: &'a mut PrefixMap<P, R>,
+            stack: &[Enc],
+            cap: usize,
+        ) -> Self {
+            let mut nodes = Vec::with_capacity(cap.max(stack.len()));
+            for e in stack {
+                nodes.push(dec(*e));
+            }
+            unsafe { UnionMut::new(&l.table, &r.table, nodes) }
+        }
+    }
+    impl<P, L, R> UnionMut<'_, P, L, R> {
+        pub fn __verif_stack_len(&self) -> usize {
+            self.nodes.len()
+        }
+        pub fn __verif_stack_entry(&self, i: usize) -> Enc {
+            enc(&self.nodes[i])
+        }
+    }
+}
